@@ -15,8 +15,9 @@ fn fe_stub<T: Into<String>>(_what: T, where_: Option<Offset>) -> FormatError {
     FormatError { what: String::new(), where_ }
 }
 
-// oblig: C14.byte_size_parse kind=complete
+// oblig: C14.byte_size_parse kind=complete tier=thorough timeout=900
 #[kani::proof]
+#[kani::unwind(6)]
 #[kani::stub(std::fmt::format, fmt_stub)]
 #[kani::stub(std::backtrace::Backtrace::capture, bt_stub)]
 #[kani::stub(crate::bases::types::error::FormatError::new, fe_stub)]
@@ -30,8 +31,9 @@ fn k_bytesize_parse_total() {
     kani::cover!(data[0] == 8);
 }
 
-// oblig: C14.fullpackkind kind=complete
+// oblig: C14.fullpackkind kind=complete tier=thorough timeout=900
 #[kani::proof]
+#[kani::unwind(6)]
 #[kani::stub(std::fmt::format, fmt_stub)]
 #[kani::stub(std::backtrace::Backtrace::capture, bt_stub)]
 #[kani::stub(crate::bases::types::error::FormatError::new, fe_stub)]
